@@ -156,9 +156,20 @@ def _suite_templates(alias):
         "literal-with-foreign-oracle": ([("var_0 = 10", "var_0", int), (f"var_1 = {alias}.Account(var_0)", "var_1", None), ("var_7 = 5", "var_7", int),
                                          ("var_8 = 'unused'", "var_8", str)],
                                         {2: [O("var_1.balance", 10)], 3: [L("var_1.log", 0), O("var_8", "unused")]}),
+        # an oracle at the end of a chain of five dependent statements (the statement minimizers must protect the whole chain)
+        "deep-chain": ([("var_0 = 3", "var_0", int), (f"var_1 = {alias}.Account(var_0)", "var_1", None), ("var_2 = var_1.deposit(var_0)", "var_2", int),
+                        ("var_3 = var_1.deposit(var_2)", "var_3", int), ("var_4 = var_1.deposit(var_3)", "var_4", int),
+                        ("var_5 = var_1.deposit(var_4)", "var_5", int)], {5: [O("var_5", 48)]}),
         "no-assertions": ([("var_0 = 7", "var_0", int), (f"var_1 = {alias}.Account(var_0)", "var_1", None),
                            ("var_6 = var_1.deposit(var_0)", "var_6", int)], {}),
     }
+
+
+class _ConstantCoverage:
+    """a coverage function whose value no statement of a test case influences"""
+
+    def compute_coverage(self, suite):   # noqa: ARG002
+        return 1.0
 
 
 def _check_suite_export(part: Part, tier, seed):
@@ -183,7 +194,9 @@ def _check_suite_export(part: Part, tier, seed):
         k = 0
         for r in sizes:
             for combo in itertools.permutations(templates, r):
-                for postprocess in (False, True):
+                for postprocess in (False, True, "forward", "backward"):
+                    if postprocess in ("forward", "backward") and r > 1 and "deep-chain" not in combo:
+                        continue          # (the statement minimizers: every single template, and the suites with the deep chain)
                     k += 1
                     part.case()
                     suite = tsc.TestSuiteChromosome()
@@ -203,8 +216,15 @@ def _check_suite_export(part: Part, tier, seed):
                         attached.append([(norm(cst.Module(body=[s.node]).code).split("=", 1)[-1].strip(),
                                           [norm(cst.Module(body=[assertion_to_cst(a)]).code) for a in s.assertions])
                                          for s in ch.test_case.statements()])
-                    if postprocess:
+                    if postprocess is True:
                         suite.accept(pp.TestCasePostProcessor([pp.UnusedStatementsTestCaseVisitor()]))
+                    elif postprocess:
+                        # statement minimization as the generator runs it, with a coverage function no statement contributes to:
+                        # everything the assertions do not protect goes, the oracles and what they depend on must stay
+                        from pynguin.utils.orderedset import OrderedSet
+                        vis = pp.ForwardIterativeMinimizationVisitor if postprocess == "forward" else pp.BackwardIterativeMinimizationVisitor
+                        suite.accept(pp.TestCasePostProcessor([pp.UnusedStatementsTestCaseVisitor(), vis(OrderedSet([_ConstantCoverage()])),
+                                                               pp.UnusedStatementsTestCaseVisitor()]))
                     out = TestSuiteWriter().write(suite, _BANK, tmp / f"out{k}", project_path=str(tmp), format_with_black=False)
                     funcs = []
                     for node in _ast.parse(out.read_text(encoding="utf-8")).body:
@@ -237,7 +257,7 @@ def _check_suite_export(part: Part, tier, seed):
                             best = [(v, a) for v, al in wanted for a in al]
                         if best:
                             part.violation("every assertion attached to a test case appears, for the same statement, in an exported test function",
-                                           "suite-export-drops-assertion:" + ("after-postprocessing" if postprocess else "plain"),
+                                           "suite-export-drops-assertion:" + ("after-postprocessing" if postprocess is True else str(postprocess or "plain")),
                                            {"suite": list(combo), "postprocessing": postprocess, "test_case_index": idx,
                                             "assertions_in_no_exported_function": best, "exported_functions": len(funcs)},
                                            target=f"{EX}:TestSuiteWriter.write")
@@ -255,7 +275,8 @@ def bounded_suite_export(tier, seed):
                    "never read (three of them identical once the unused binding is stripped, with different assertions), a result "
                    "that is only asserted, a test case without assertions; the written file is parsed and every attached assertion "
                    "must follow the statement it belongs to in some exported function",
-             bound="suites of <= 2 (3) test cases out of 6 templates")
+             bound="suites of <= 2 (3) test cases out of 8 templates; the forward and backward statement minimizers (with a coverage "
+                   "function no statement contributes to) on every single template and on the suites that contain the five-statement chain")
     return guarded(p, _check_suite_export, tier, seed)
 
 
